@@ -5,7 +5,7 @@ LOG="${1:-/tmp/seedreg.log}"; : > "$LOG"
 cd "$(dirname $0)/.."
 for d in seeded/C??; do
     id=$(basename $d)
-    for sub in "$d" "$d/round2"; do
+    for sub in "$d" "$d/round2" "$d/round3"; do
         for p in patch.diff patch2.diff; do
             [ -f "$sub/$p" ] || continue
             extra=""
@@ -13,6 +13,11 @@ for d in seeded/C??; do
                 seeded/C16/patch.diff) extra="C15";;
                 seeded/C16/patch2.diff|seeded/C16/round2/patch2.diff) extra="C09";;
                 seeded/C13/round2/patch2.diff) extra="C14";;
+                seeded/C02/round2/patch2.diff) extra="C03";;
+                seeded/C02/round3/patch.diff) extra="C01";;
+                seeded/C03/round3/patch2.diff) extra="C18";;
+                seeded/C09/round3/patch2.diff) extra="C20";;
+                seeded/C16/round3/patch.diff) extra="C15";;
             esac
             res=$(tools/mutlab.sh patch "$(pwd)/$sub/$p" $id $extra 2>&1 | grep -E "^==|PATCH DOES NOT" | cut -c1-260 | tr '\n' ' ')
             echo "$sub/$p $res" >> "$LOG"
